@@ -1,3 +1,12 @@
+// Package c02: no script can crash or wedge the embedding Go program
+// (spec/Totality.tla, spec/C02.tla, spec/C02Fns.tla).
+//
+// TLC enumerates calls of the public API (built-in function x receiver kind x
+// argument kinds x entry route; token sequences as source text; recursion
+// forms x depth x stack limit; Value/Object accessors x value kind; host
+// interrupts) and prints, for each, the set of replies the specification
+// admits.  The harness renders the call, performs it in a worker subprocess
+// under recover with a watchdog, projects the reply and tests membership.
 package c02
 
 import (
@@ -8,16 +17,369 @@ import (
 	"sort"
 	"strings"
 	"sync"
+	"sync/atomic"
+	"time"
 
 	"verif/harness/internal/core"
+	"verif/harness/internal/tlc"
 )
 
-// Check is filled in below; for now: probe mode (C02_PROBE=<file of case lines>).
+// Expect is Totality's expectation record.
+type Expect struct {
+	Value    bool       `json:"value"`
+	Errors   []string   `json:"errors"`
+	Panics   []string   `json:"panics"`
+	Diverge  bool       `json:"diverge"`
+	Resource bool       `json:"resource"`
+	Post     [][]string `json:"post"`
+}
+
+type ExpVal struct {
+	Reply Expect `json:"reply"`
+	Val   string `json:"val"`
+}
+
+type Line struct {
+	C   Case     `json:"c"`
+	Exp ExpVal   `json:"exp"`
+	Dev []ExpVal `json:"dev"`
+}
+
+type Block struct {
+	Blk   []any  `json:"blk"`
+	Cases []Line `json:"cases"`
+}
+
+func has(xs []string, x string) bool {
+	for _, y := range xs {
+		if y == x {
+			return true
+		}
+	}
+	return false
+}
+
+// Admits: is the observed reply a member of the expectation?  (Membership
+// only; which replies are admissible is decided by the specification.)
+func Admits(e *ExpVal, o *Obs) (bool, string) {
+	r := &e.Reply
+	switch o.Kind {
+	case "value":
+		if !r.Value {
+			return false, "a value was returned"
+		}
+		if e.Val != "" && o.Val != e.Val {
+			return false, fmt.Sprintf("value %q, specification %q", o.Val, e.Val)
+		}
+	case "error":
+		if !(has(r.Errors, "*") || has(r.Errors, o.Class)) {
+			return false, "error of class " + o.Class
+		}
+	case "gopanic":
+		if !has(r.Panics, o.Class) {
+			return false, "Go panic " + o.Class + ": " + o.Msg
+		}
+	case "interrupted":
+		if !(r.Diverge || r.Resource) {
+			return false, "the call had to be interrupted"
+		}
+	case "wedged", "killed", "crash":
+		if !r.Resource {
+			return false, o.Kind + ": " + o.Msg
+		}
+	default:
+		return false, "harness: " + o.Kind + " " + o.Msg
+	}
+	for _, p := range o.Post {
+		// "<accessor>: <Go type>: <message>"
+		parts := strings.SplitN(p, ": ", 3)
+		ok := false
+		for _, adm := range r.Post {
+			if len(adm) == 2 && len(parts) >= 2 && adm[0] == parts[0] && adm[1] == parts[1] {
+				ok = true
+			}
+		}
+		if !ok {
+			return false, "accessor on the result panicked: " + p
+		}
+	}
+	if o.After != "" {
+		return false, "runtime unusable afterwards: " + o.After
+	}
+	return true, ""
+}
+
+type tally struct {
+	cases, conform, devHits, skippedFlaky int64
+	byFam                                   sync.Map
+	kinds                                   sync.Map
+	exact                                   int64 // cases whose strict expectation is narrower than totality
+}
+
+func (t *tally) count(m *sync.Map, k string) {
+	v, _ := m.LoadOrStore(k, new(int64))
+	atomic.AddInt64(v.(*int64), 1)
+}
+
+func dump(m *sync.Map) map[string]int64 {
+	out := map[string]int64{}
+	m.Range(func(k, v any) bool { out[k.(string)] = atomic.LoadInt64(v.(*int64)); return true })
+	return out
+}
+
+func cfgText(c *core.Ctx, fam string, nsel, deep int) string {
+	return fmt.Sprintf("CONSTANTS\n OpenDev = %s\n Fam = %q\n NSel = %d\n Deep = %d\nINIT Init\nNEXT Next\nINVARIANT NoGoPanic\nINVARIANT Emit\nCHECK_DEADLOCK FALSE\n",
+		core.TLASet(c.Findings.OpenIDs()), fam, nsel, deep)
+}
+
+type runCfg struct {
+	name string
+	fam  string
+	nsel int
+	deep int
+}
+
+// judge compares one reply with the line's expectations; a mismatch is
+// reproduced on a fresh worker before it is reported.
+func judge(c *core.Ctx, t *tally, l *Line, o Obs, fresh func(*Case) Obs, samples *[]any, smu *sync.Mutex) {
+	n := atomic.AddInt64(&t.cases, 1)
+	t.count(&t.byFam, l.C.Fam)
+	t.count(&t.kinds, o.Kind)
+	r := &l.Exp.Reply
+	if !(r.Value && has(r.Errors, "*")) {
+		atomic.AddInt64(&t.exact, 1)
+	}
+	if ok, _ := Admits(&l.Exp, &o); ok {
+		atomic.AddInt64(&t.conform, 1)
+		if n%4099 == 1 {
+			smu.Lock()
+			if len(*samples) < 8 {
+				*samples = append(*samples, map[string]any{"call": Render(&l.C), "admitted": l.Exp, "reply": o})
+			}
+			smu.Unlock()
+		}
+		return
+	}
+	if len(l.Dev) > 0 {
+		if ok, _ := Admits(&l.Dev[0], &o); ok {
+			atomic.AddInt64(&t.devHits, 1)
+			c.Hit("deviation")
+			return
+		}
+	}
+	// reproduce on a fresh worker (with a long watchdog when the reply was a timeout: tells slow from wedged)
+	rc := l.C
+	if o.Kind == "wedged" || o.Kind == "interrupted" || o.Kind == "killed" {
+		rc.Patient = true
+	}
+	o2 := fresh(&rc)
+	same := o2.Kind == o.Kind && o2.Class == o.Class
+	if !same {
+		if ok, _ := Admits(&l.Exp, &o2); ok {
+			atomic.AddInt64(&t.skippedFlaky, 1)
+			c.Note("reply not reproduced on a fresh worker (first %s/%s, then %s/%s): %s", o.Kind, o.Class, o2.Kind, o2.Class, Render(&l.C))
+			return
+		}
+		if len(l.Dev) > 0 {
+			if ok, _ := Admits(&l.Dev[0], &o2); ok {
+				atomic.AddInt64(&t.skippedFlaky, 1)
+				return
+			}
+		}
+		o = o2
+	}
+	_, why := Admits(&l.Exp, &o)
+	admitted := l.Exp
+	if len(l.Dev) > 0 {
+		admitted = l.Dev[0]
+		_, why = Admits(&l.Dev[0], &o)
+	}
+	eb, _ := json.Marshal(admitted)
+	ob, _ := json.Marshal(o)
+	c.Violate(fmt.Sprintf("%s  =>  %s ; reply %s ; specification admits %s", Render(&l.C), why, trunc(string(ob), 400), trunc(string(eb), 300)),
+		map[string]any{"case": l.C, "call": Render(&l.C), "reply": o, "admitted": admitted, "strict": l.Exp})
+}
+
 func Check(c *core.Ctx) (map[string]any, []string, error) {
 	if p := os.Getenv("C02_PROBE"); p != "" {
 		return nil, nil, probe(p)
 	}
-	return nil, nil, fmt.Errorf("not implemented")
+	var runs []runCfg
+	if c.Thorough() {
+		runs = []runCfg{
+			{"all-families,thorough(fn1: all routes x all single arguments; fn2: all core pairs on core receivers; src: length 4)", "all", 0, 1},
+		}
+	} else {
+		runs = []runCfg{{"all-families,quick(sampled argument tuples)", "all", 3, 0}}
+	}
+	if f := os.Getenv("C02_FAM"); f != "" {
+		runs[0].fam = f
+	}
+	nw := c.Workers
+	if nw > 16 {
+		nw = 16
+	}
+	pool := NewPool(nw)
+	freshW := make(chan *Worker, 4)
+	for i := 0; i < 4; i++ {
+		freshW <- &Worker{}
+	}
+	fresh := func(cs *Case) Obs {
+		w := <-freshW
+		w.stop() // a brand new process for every reproduction
+		o, err := w.Do(cs)
+		if err != nil {
+			o = Obs{Kind: "harness", Msg: err.Error()}
+		}
+		freshW <- w
+		return o
+	}
+	t := &tally{}
+	var samples []any
+	var smu sync.Mutex
+	var firstErr atomic.Value
+	var tlcStats []map[string]any
+	var states, trans int64
+	var runErr error
+	for _, rc := range runs {
+		o := tlc.Opts{SpecDir: c.SpecDir, Module: "C02", Cfg: cfgText(c, rc.fam, rc.nsel, rc.deep), Workers: c.Workers, Seed: c.Seed, Timeout: 45 * time.Minute}
+		res, err := tlc.Run(o, func(p []byte) {
+			var b Block
+			if e := json.Unmarshal(p, &b); e != nil {
+				firstErr.CompareAndSwap(nil, fmt.Errorf("bad line: %v: %s", e, trunc(string(p), 200)))
+				return
+			}
+			lines := b.Cases
+			pool.SubmitBatch(lines, func(l *Line, ob Obs) { judge(c, t, l, ob, fresh, &samples, &smu) })
+		})
+		if res != nil {
+			tlcStats = append(tlcStats, map[string]any{"config": rc.name, "generated": res.Generated, "distinct": res.Distinct, "lines": res.Lines, "wall_s": res.Wall})
+			states += res.Distinct
+			trans += res.Generated
+		}
+		if err != nil {
+			runErr = err
+			break
+		}
+	}
+	perr := pool.Wait()
+	for i := 0; i < 4; i++ {
+		(<-freshW).Close()
+	}
+	if runErr != nil {
+		return nil, nil, runErr
+	}
+	if e := firstErr.Load(); e != nil {
+		return nil, nil, e.(error)
+	}
+	if perr != nil {
+		return nil, nil, perr
+	}
+	if t.cases == 0 {
+		return nil, nil, fmt.Errorf("no case was generated")
+	}
+	// the function table against the live runtime
+	live, err := Walk()
+	if err != nil {
+		return nil, nil, err
+	}
+	missing, gone := compareTable(c.SpecDir, live)
+	for _, m := range missing {
+		c.Note("function reachable on the live runtime but missing from spec/C02Fns.tla (rerun spec/gen_c02fns.py): %s", m)
+	}
+	for _, m := range gone {
+		c.Note("function of spec/C02Fns.tla not reachable on the live runtime: %s", m)
+	}
+	nText := 3000
+	if c.Thorough() {
+		nText = 60000
+	}
+	var judgeCov map[string]any
+	if os.Getenv("C02_FAM") == "" || os.Getenv("C02_FAM") == "irq" {
+		jc, err := JudgeTexts(c, nText)
+		if err != nil {
+			return nil, nil, err
+		}
+		judgeCov = jc
+		if n, ok := jc["texts"].(int); ok {
+			t.cases += int64(n)
+		}
+	}
+	bind := selfTest()
+	if len(samples) == 0 {
+		samples = append(samples, "no conforming case sampled")
+	}
+	cov := map[string]any{
+		"states": states, "transitions": trans, "traces_validated_against_impl": t.cases, "samples": samples,
+		"tlc_runs": tlcStats, "cases": t.cases, "conforming": t.conform, "conforming_to_known_deviation": t.devHits,
+		"not_reproduced_skipped": t.skippedFlaky, "cases_by_family": dump(&t.byFam), "replies_by_kind": dump(&t.kinds),
+		"cases_with_expectation_narrower_than_totality": t.exact,
+		"functions_in_table": len(live) - len(missing) + len(gone), "functions_live": len(live), "functions_missing_from_table": len(missing),
+		"worker_restarts": pool.Restarts, "binding_self_test": bind, "judge_mutated_programs": judgeCov,
+		"rule": "one TLC state per block of cases (the cases of a block are evaluated inside the state's invariants); every case is one call on a fresh runtime in a worker subprocess",
+	}
+	assume := []string{
+		"trusted: the rendering of value kinds / routes / recursion forms to JavaScript and Go API calls (harness/internal/c02/exec.go, rec.go), the reply projection (error class from the error text, Go panic type), TLC",
+		"resource exhaustion is outside the statement: calls that ES5 itself makes visit 2^32-1 indexes are not generated (Totality!Heavy); results longer than 100000 elements are not exported",
+		"a script still running after 1.5 s is interrupted through Otto.Interrupt and counted as divergence where the specification admits divergence; no reply 2.5 s after that is a wedge",
+		"unbounded recursion without a configured stack depth limit is outside the statement and not generated",
+	}
+	return cov, assume, nil
+}
+
+// compareTable reads the paths of spec/C02Fns.tla and compares with the live walk.
+func compareTable(specDir string, live []string) (missing, gone []string) {
+	b, err := os.ReadFile(specDir + "/C02Fns.tla")
+	if err != nil {
+		return []string{"cannot read C02Fns.tla: " + err.Error()}, nil
+	}
+	tab := map[string]bool{}
+	for _, ln := range strings.Split(string(b), "\n") {
+		if i := strings.Index(ln, `[p |-> "`); i >= 0 {
+			rest := ln[i+8:]
+			if j := strings.Index(rest, `"`); j >= 0 {
+				tab[rest[:j]] = true
+			}
+		}
+	}
+	lv := map[string]bool{}
+	for _, p := range live {
+		lv[p] = true
+		if !tab[p] {
+			missing = append(missing, p)
+		}
+	}
+	for p := range tab {
+		if !lv[p] {
+			gone = append(gone, p)
+		}
+	}
+	sort.Strings(gone)
+	return
+}
+
+// selfTest demonstrates the binding: replies that must be rejected are rejected,
+// and the executor observes a panic when one is provoked.
+func selfTest() map[string]any {
+	out := map[string]any{}
+	onlyTE := ExpVal{Reply: Expect{Errors: []string{"TypeError"}}}
+	anyR := ExpVal{Reply: Expect{Value: true, Errors: []string{"*"}}}
+	ok1, _ := Admits(&onlyTE, &Obs{Kind: "value"})
+	ok2, _ := Admits(&anyR, &Obs{Kind: "gopanic", Class: "runtime.errorString"})
+	ok3, _ := Admits(&anyR, &Obs{Kind: "wedged"})
+	ok4, _ := Admits(&anyR, &Obs{Kind: "value", Post: []string{"Export: *otto.exception: x"}})
+	ok5, _ := Admits(&onlyTE, &Obs{Kind: "error", Class: "TypeError"})
+	out["mutated_replies_rejected"] = !ok1 && !ok2 && !ok3 && !ok4 && ok5
+	// a host function that panics with a foreign value: the executor must see the Go panic
+	w := &Worker{}
+	defer w.Close()
+	o, err := w.Do(&Case{Fam: "text", API: "selftest-panic"})
+	out["executor_observes_go_panic"] = err == nil && o.Kind == "gopanic"
+	o2, err2 := w.Do(&Case{Fam: "text", API: "selftest-wedge"})
+	out["executor_observes_wedge"] = err2 == nil && o2.Kind == "wedged"
+	o3, err3 := w.Do(&Case{Fam: "text", API: "selftest-fatal"})
+	out["executor_observes_fatal_crash"] = err3 == nil && o3.Kind == "crash"
+	return out
 }
 
 func probe(path string) error {
@@ -32,16 +394,13 @@ func probe(path string) error {
 	first := map[string]string{}
 	sc := bufio.NewScanner(f)
 	sc.Buffer(make([]byte, 1<<20), 1<<26)
-	for sc.Scan() {
-		if len(sc.Bytes()) == 0 {
-			continue
+	var batch []Line
+	flush := func() {
+		if len(batch) == 0 {
+			return
 		}
-		var c Case
-		if err := json.Unmarshal(sc.Bytes(), &c); err != nil {
-			return err
-		}
-		cc := c
-		pool.Submit(&cc, func(c *Case, o Obs) {
+		pool.SubmitBatch(batch, func(l *Line, o Obs) {
+			c := &l.C
 			if os.Getenv("C02_PROBE_ALL") != "" {
 				b, _ := json.Marshal(o)
 				fmt.Printf("%s\n    => %s\n", Render(c), b)
@@ -67,7 +426,22 @@ func probe(path string) error {
 			}
 			mu.Unlock()
 		})
+		batch = nil
 	}
+	for sc.Scan() {
+		if len(sc.Bytes()) == 0 {
+			continue
+		}
+		var c Case
+		if err := json.Unmarshal(sc.Bytes(), &c); err != nil {
+			return err
+		}
+		batch = append(batch, Line{C: c})
+		if len(batch) >= 32 {
+			flush()
+		}
+	}
+	flush()
 	if err := pool.Wait(); err != nil {
 		return err
 	}
